@@ -38,6 +38,20 @@ def put(tag, lines):
     a, b = f'<!-- GENERATED:{tag} -->', f'<!-- /GENERATED:{tag} -->'
     i, j = s.index(a), s.index(b)
     s = s[:i + len(a)] + '\n' + '\n'.join(lines) + '\n' + s[j:]
+# in-repo functions whose contract is assumed (extern), by package
+import subprocess
+ext = {}
+for f in sorted(glob.glob('/repo/**/zz_contracts_verif.go', recursive=True)):
+    pkg = os.path.dirname(f).replace('/repo/', '')
+    for ln in open(f):
+        m = re.match(r'//@ extern func (\S+)', ln)
+        if not m: continue
+        k = m.group(1)
+        if k == 'iface' or '/' in k and not k.startswith('github.com/furiko-io/furiko'): continue
+        if k.startswith('(') or k.split('.')[0] in ('time', 'strings', 'strconv', 'reflect', 'container/heap', 'fmt', 'sort', 'regexp'): continue
+        ext.setdefault(pkg, []).append(k.replace('github.com/furiko-io/furiko/', ''))
+aout = ['| package | in-repo functions with an assumed (extern) contract |', '|---|---|'] + [f"| `{p}` | {', '.join('`'+x+'`' for x in v)} |" for p, v in sorted(ext.items())]
+put('assumed', aout)
 put('status', out)
 put('seeds', sout)
 open(p, 'w').write(s)
